@@ -96,14 +96,64 @@ type impl struct {
 	w *writer
 	s api.SenderInterface
 	n int64
+	// device mode (a history that starts with Request 99): the Sender is the one of a DeviceRemote set
+	// up on a real DeviceLocal, and responses arrive as datagrams through DeviceRemote.HandleSpineMesssage
+	dev    *spine.DeviceLocal
+	remote api.DeviceRemoteInterface
+	inCtr  uint64
 }
+
+const discoveryHash = 99
+const devSki = "ski-c13"
 
 func newImpl() hx.Impl {
 	w := &writer{}
 	return &impl{w: w, s: spine.NewSender(w)}
 }
 
-func (m *impl) Close() {}
+func (m *impl) Close() {
+	if m.dev != nil {
+		m.dev.RemoveRemoteDevice(devSki)
+	}
+}
+
+// setupDevice switches to device mode; SetupRemoteDevice itself sends the first request (the
+// detailed discovery read), which is the operation Request 99.
+func (m *impl) setupDevice() {
+	m.dev = spine.NewDeviceLocal("brand", "model", "serial", "code", "d0", model.DeviceTypeTypeEnergyManagementSystem, model.NetworkManagementFeatureSetTypeSmart)
+	rd := m.dev.SetupRemoteDevice(devSki, m.w)
+	m.remote = rd.(api.DeviceRemoteInterface)
+	m.s = m.remote.Sender()
+}
+
+// a response datagram of the peer referencing counter ref: a result for the local node management
+// (accepted by ProcessCmd) when ref is even, a result for a local feature that does not exist
+// (rejected by ProcessCmd, nothing is written) when ref is odd; either way it answers request ref
+func (m *impl) inboundResponse(ref int64) {
+	m.inCtr++
+	nm := func() *model.FeatureAddressType {
+		return &model.FeatureAddressType{Entity: []model.AddressEntityType{0}, Feature: util.Ptr(model.AddressFeatureType(0))}
+	}
+	dst := nm()
+	dst.Device = devAddr(0)
+	if ref%2 != 0 {
+		dst.Entity = []model.AddressEntityType{9}
+		dst.Feature = util.Ptr(model.AddressFeatureType(9))
+	}
+	d := model.Datagram{Datagram: model.DatagramType{
+		Header: model.HeaderType{
+			SpecificationVersion: util.Ptr(model.SpecificationVersionType("1.3.0")),
+			AddressSource:        nm(),
+			AddressDestination:   dst,
+			MsgCounter:           util.Ptr(model.MsgCounterType(m.inCtr)),
+			MsgCounterReference:  util.Ptr(model.MsgCounterType(ref)),
+			CmdClassifier:        util.Ptr(model.CmdClassifierTypeResult),
+		},
+		Payload: model.PayloadType{Cmd: []model.CmdType{{ResultData: &model.ResultDataType{ErrorNumber: util.Ptr(model.ErrorNumberType(0))}}}},
+	}}
+	b, _ := json.Marshal(d)
+	_, _ = m.remote.HandleSpineMesssage(b)
+}
 
 func (m *impl) written() []hx.Zs {
 	var out []hx.Zs
@@ -127,7 +177,9 @@ func (m *impl) written() []hx.Zs {
 				if h.AddressDestination != nil && h.AddressDestination.Device != nil {
 					fmt.Sscanf(string(*h.AddressDestination.Device), "d%d", &dst)
 				}
-				if len(d.Datagram.Payload.Cmd) == 1 {
+				if len(d.Datagram.Payload.Cmd) == 1 && d.Datagram.Payload.Cmd[0].NodeManagementDetailedDiscoveryData != nil {
+					p = discoveryHash
+				} else if len(d.Datagram.Payload.Cmd) == 1 {
 					p = dst*nCmd + cmdID(d.Datagram.Payload.Cmd[0])
 				} else {
 					p = -1
@@ -181,6 +233,25 @@ func (m *impl) Exec(op hx.Zs) []hx.Zs {
 	switch op[0] {
 	case 0:
 		h := op[1]
+		if h == discoveryHash {
+			var ctr *model.MsgCounterType
+			if m.dev == nil {
+				m.setupDevice()
+				ws := m.written()
+				for _, w := range ws { // SetupRemoteDevice does not return the counter: it is the one written
+					if len(w) == 4 && w[0] == 0 {
+						ws = append(ws, hx.Zs{1, w[1]})
+						break
+					}
+				}
+				return ws
+			}
+			ctr, _ = m.dev.RequestRemoteDetailedDiscoveryData(m.remote)
+			if ctr != nil {
+				ret = append(ret, hx.Zs{1, int64(*ctr)})
+			}
+			return append(m.written(), ret...)
+		}
 		dst, c := h/nCmd, h%nCmd
 		var ctr *model.MsgCounterType
 		switch c {
@@ -201,6 +272,8 @@ func (m *impl) Exec(op hx.Zs) []hx.Zs {
 	case 1:
 		if len(op) == 1 {
 			m.s.ProcessResponseForMsgCounterReference(nil)
+		} else if m.remote != nil {
+			m.inboundResponse(op[1])
 		} else {
 			m.s.ProcessResponseForMsgCounterReference(util.Ptr(model.MsgCounterType(op[1])))
 		}
@@ -346,6 +419,29 @@ func gen(r *hx.Rng, tier string, i int) []hx.Zs {
 		h = append(h, op)
 	}
 	nDst := int64(4)
+	if i%6 == 5 { // device mode: responses arrive as datagrams through DeviceRemote.HandleSpineMesssage
+		request(discoveryHash)
+		n := r.Range(6, 40)
+		for len(h) < n {
+			switch r.Pick(40, 30, 10, 10, 10) {
+			case 0:
+				if r.Chance(1, 3) {
+					request(discoveryHash)
+				} else {
+					request(int64(r.Intn(int(nDst)))*nCmd + int64(r.Intn(nCmd)))
+				}
+			case 1:
+				response()
+			case 2:
+				notify()
+			case 3:
+				other()
+			default:
+				lookup()
+			}
+		}
+		return h
+	}
 	if i%5 == 4 { // concurrent use: bursts of overlapping calls between sequential operations
 		n := r.Range(6, 40)
 		for len(h) < n {
